@@ -440,6 +440,9 @@ func runC02(w *World, r *Report) {
 		}
 	}
 
+	r.Rule("C02.zero-input-fits-handlers", "a node whose input is assembled from mapped fields / static values gets, when triggered without data, a zero value its pre-node handler chain can take (the intermediate map[string]any), chosen per channel from a set graph.compile fills exactly where it installs the map-to-input converter (shared with C15)", 3)
+	mappedZeroChecks(w, r, "C02.zero-input-fits-handlers")
+
 	r.Rule("C02.passthrough-sides", "the helper a pass-through node derives from its neighbour fills its input-side slots (zero value, empty stream — what a DAG channel hands a node triggered without data) from ONE side of the neighbour (shared with C04.role-uniform, package compose)", 5)
 	ruleRoleUniform(w, r, "C02.passthrough-sides", "compose")
 
